@@ -126,7 +126,7 @@ def make_steps(rng, n, multi, w, h):
 
 
 # ------------------------------------------------------------------------------------------------ driving one session
-VIEW = ("input", "cy", "offset", "sel", "multi", "n", "count", "reading", "maxItems")
+VIEW = ("input", "cy", "offset", "sel", "multi", "n", "count", "reading", "maxItems", "track", "xoffset")
 
 
 def view(e):
@@ -153,6 +153,11 @@ def settle(s, slow):
         if not flushes:
             time.sleep(0.01)
             continue
+        if "lines" not in flushes[-1] or "xoffset" not in flushes[-1]:
+            raise Infra("the trace hooks of this tree do not log cols/lines/xoffset")
+        if (flushes[-1]["cols"], flushes[-1]["lines"]) != pane_size(s):
+            time.sleep(0.005)       # fzf has not laid itself out for the current pane size yet (resize in flight)
+            continue
         if view(term[-1]) != view(flushes[-1]):
             # the state changed after the last flush: a redraw should be on its way
             tp = tp or time.time()
@@ -178,8 +183,6 @@ def snapshot(s, scfg, items, step, sid, slow, stats):
     term = [e for e in tr if e["ev"].startswith("term.") and "cy" in e]
     last = term[-1]
     w, h = pane_size(s)
-    if "xoffset" not in last:
-        raise Infra("the trace hooks of this tree do not log xoffset")
     lists = [e for e in term if e["ev"] == "term.list"]
     if not lists or "ids" not in lists[-1] or last["reading"] or last["n"] != len(lists[-1]["ids"]):
         stats["skipped"] = stats.get("skipped", 0) + 1
@@ -189,7 +192,7 @@ def snapshot(s, scfg, items, step, sid, slow, stats):
     wide, zero = width_table(items + rows + [last["input"]] + ([scfg.header] if scfg.header else []))
     return {"sid": sid, "step": step, "seq": last["seq"], "w": w, "h": h, "wide": wide, "zero": zero, "cfg": scfg.spec(items),
             "st": {"input": cells(last["input"]), "cx": last["cx"], "xoffset": last["xoffset"], "list": ids, "texts": [cells(t) for t in texts],
-                   "sel": last["sel"], "multi": last["multi"], "cy": last["cy"], "offset": last["offset"], "count": last["count"]},
+                   "sel": last["sel"], "multi": last["multi"], "cy": last["cy"], "offset": last["offset"], "count": last["count"], "track": last["track"]},
             "maxItems": last["maxItems"], "orig": [cells(items[i + scfg.nhl]) if 0 <= i + scfg.nhl < len(items) else None for i in ids],
             "rows": [cells(r) for r in rows]}
 
@@ -243,11 +246,138 @@ def run_session(ctx, fzf, sid, scfg, items, steps, width, height, slow=False, st
         s.close()
 
 
+
+# ------------------------------------------------------------------------------------------------ E: spec -> code
+def e_groups(cases):
+    """Cases exported by TLC (Gen_Screen.cfg) grouped into sessions: one per (configuration, item list)."""
+    groups = {}
+    for c in cases:
+        groups.setdefault(json.dumps([c["cfg"], c["items"]], sort_keys=True), []).append(c)
+    out = []
+    for k in sorted(groups):
+        out.append(sorted(groups[k], key=lambda c: (c["w"], c["h"], json.dumps(c["st"], sort_keys=True))))
+    return out
+
+
+def e_cfg(c):
+    return SCfg(layout=c["layout"], info=c["info"], sep=c["sep"], header="\n".join("".join(x) for x in c["header"]) if c["header"] else None,
+                nhl=len(c["hlines"]), header_first=c["headerFirst"], inputless=c["inputless"], prompt=None, pointer=None, marker=None,
+                ellipsis=None, multi="inf", cycle=False, scroll_off=0, disabled=True)
+
+
+def e_actions(st):
+    """Action list that puts the finder into the exported state (list = all items, search disabled)."""
+    acts = ["deselect-all", "change-multi" if st["multi"] == 2147483647 else "change-multi(%d)" % st["multi"],
+            "change-query(%s)" % "".join(st["input"]) if st["input"] else "clear-query"]
+    for i in st["sel"]:
+        acts += ["pos(%d)" % (st["list"].index(i) + 1), "select"]
+    acts += ["pos(1)", "pos(%d)" % (st["cy"] + 1)]
+    return "+".join(acts)
+
+
+def e_expected(case):
+    st = case["st"]
+    # --no-input: the query cannot be edited and is not displayed
+    return {"rows": case["rows"], "input": None if case["cfg"]["inputless"] else st["input"], "cy": st["cy"], "offset": st["offset"], "multi": st["multi"], "count": st["count"],
+            "sel": [st["list"].index(i) for i in st["sel"]], "n": len(st["list"])}
+
+
+def e_session(ctx, fzf, sid, group, slow=False):
+    """Runs one group of cases; returns [(case, got)] where got has the shape of e_expected."""
+    c0 = group[0]
+    scfg = e_cfg(c0["cfg"])
+    items = ["".join(x) for x in c0["cfg"]["hlines"]] + ["".join(x) for x in c0["items"]]
+    out = []
+    s = tmuxdrv.Session(ctx, fzf, scfg.args(), input_data="".join(i + "\n" for i in items), width=c0["w"], height=c0["h"])
+    stats = {}
+    try:
+        s.wait_listening(timeout=120)
+        s.wait_for(lambda tr: any(e["ev"] == "term.list" and not e["reading"] for e in tr), timeout=120, what="first final list")
+        for case in group:
+            if pane_size(s) != (case["w"], case["h"]):
+                n_loop = s.count("term.loop")
+                s.post("pos(1)", timeout=60)
+                s.wait_count("term.loop", n_loop + 1, timeout=120)
+                settle(s, slow)
+                n_flush = s.count("term.render", lambda e: e["what"] == "flush")
+                s.resize(case["w"], case["h"])
+                s.wait_for(lambda tr: sum(1 for e in tr if e["ev"] == "term.render" and e["what"] == "flush") > n_flush,
+                           timeout=120, what="redraw after resize")
+            n_loop = s.count("term.loop")
+            st, _ = s.post(e_actions(case["st"]), timeout=60)
+            if st != 200:
+                raise Infra("POST -> %d" % st)
+            s.wait_count("term.loop", n_loop + 1, timeout=120)
+            r = snapshot(s, scfg, items, 0, sid, slow, stats)
+            if r is None:
+                raise Infra("E session %d: no settled screen" % sid)
+            if (r["w"], r["h"]) != (case["w"], case["h"]):
+                raise Infra("E session %d: pane is %dx%d, wanted %dx%d" % (sid, r["w"], r["h"], case["w"], case["h"]))
+            out.append((case, {"rows": r["rows"], "input": None if case["cfg"]["inputless"] else r["st"]["input"], "cy": r["st"]["cy"], "offset": r["st"]["offset"],
+                               "multi": r["st"]["multi"], "count": r["st"]["count"], "sel": sorted(r["st"]["sel"]),
+                               "n": len(r["st"]["list"])}))
+        s.post("abort", final=True)
+        s.wait_exit(timeout=120)
+        return out
+    finally:
+        s.close()
+
+
+def run_e(ctx, fzf):
+    gen = ctx.tlc("MC_Screen", ctx.pick("Gen_Screen_q.cfg", "Gen_Screen.cfg"), workers=4, timeout=1200, label="gen")
+    cases = gen.json_items("CASE")
+    if len(cases) < 1000:
+        raise Infra("TLC exported only %d cases" % len(cases))
+    groups = e_groups(cases)
+    ngroups = len(groups)
+    if ctx.quick:
+        groups = ctx.rng.sample(groups, 14)
+    # a seeded half of each configuration's cases (16 quick)
+    groups = [sorted(ctx.rng.sample(g, min(len(g), ctx.pick(16, 24))), key=lambda c: (c["w"], c["h"])) for g in groups]
+    results = {}
+
+    def do(ix):
+        return ix, e_session(ctx, fzf, 1000 + ix, groups[ix])
+    with ThreadPoolExecutor(max_workers=6) as ex:
+        for ix, res in ex.map(do, range(len(groups))):
+            results[ix] = res
+    total = bad_groups = 0
+    seen_bad = []
+    for ix in sorted(results):
+        bad = [(c, got) for c, got in results[ix] if got != e_expected(c)]
+        total += len(results[ix])
+        if bad:
+            seen_bad.append(ix)
+    for ix in seen_bad[:4]:
+        # reproduce: the same group again, settling slowly
+        res2 = e_session(ctx, fzf, 2000 + ix, groups[ix], slow=True)
+        bad2 = [(c, got) for c, got in res2 if got != e_expected(c)]
+        if not bad2:
+            raise Infra("E group %d: mismatch not reproduced" % ix)
+        c, got = bad2[0]
+        exp = e_expected(c)
+        if {k: got[k] for k in got if k != "rows"} != {k: exp[k] for k in exp if k != "rows"}:
+            raise Infra("E group %d: could not put fzf into the exported state: want %s got %s" % (
+                ix, json.dumps({k: exp[k] for k in exp if k != "rows"}), json.dumps({k: got[k] for k in got if k != "rows"})))
+        scfg = e_cfg(c["cfg"])
+        what = "%s, %dx%d, state %s: the specification predicts the screen\n%s\nbut the terminal shows\n%s" % (
+            scfg.describe(), c["w"], c["h"], json.dumps({k: exp[k] for k in exp if k != "rows"}),
+            "\n".join("".join(x) for x in exp["rows"]), "\n".join("".join(x) for x in got["rows"]))
+        ctx.violation(what, {"e_case": c, "got": got, "kf": {"site": "terminal.render", "verdict": "replay",
+                                                               "layout": c["cfg"]["layout"], "info": c["cfg"]["info"]}})
+    ctx.cov["traces_validated_against_impl"] += total
+    ctx.cov["evaluations"] += total
+    ctx.cov["e_cases_exported"] = len(cases)
+    ctx.cov["e_cases_replayed"] = total
+    ctx.cov["e_sessions"] = len(groups)
+    ctx.cov["e_configurations"] = ngroups
+    return total
+
 # ------------------------------------------------------------------------------------------------ the check
 def make_jobs(ctx):
     rng = ctx.rng
     jobs = []
-    nsess = ctx.pick(18, 150)
+    nsess = ctx.pick(30, 300)
     for k in range(nsess):
         scfg = make_cfg(rng)
         n = rng.choice([0, 1, 2, 3, 5, 9, 14, 25, 40, 60])
@@ -291,6 +421,8 @@ def run(ctx):
         raise Infra("MC_Screen: steps never taken in any configuration: %s (seen %s)" % (never, sorted(taken)))
     # (2) real sessions
     fzf = ctx.build_fzf()
+    if not ctx.replay:
+        run_e(ctx, fzf)
     jobs = make_jobs(ctx)
     if ctx.replay:
         c = json.load(open(ctx.replay))["case"]["session"]
